@@ -460,6 +460,43 @@ def float_directed() -> list[dict[str, Any]]:
     return out
 
 
+CMPF = ["false", "oeq", "ogt", "oge", "olt", "ole", "one", "ord", "ueq", "ugt", "uge", "ult", "ule", "une", "uno", "true"]
+
+
+def cmpf_program(pred: str, ty: str, swap: bool = False, fm: str = "") -> dict[str, Any]:
+    """one arith.cmpf on the two arguments; like the cmpi programs the i1 result is observed in a0 after the arith
+    lowering / allocation / early canonicalization (an i1 cannot pass riscv-lower-parallel-mov in the pinned pipeline)"""
+    a, b = ("%a1", "%a0") if swap else ("%a0", "%a1")
+    fmt = f" fastmath<{fm}>" if fm else ""
+    return {"text": f"builtin.module {{\nfunc.func @main(%a0: {ty}, %a1: {ty}) -> (i1) {{\n"
+                    f"  %v1 = arith.cmpf {pred}, {a}, {b}{fmt} : {ty}\n  func.return %v1 : i1\n}}\n}}\n",
+            "arg_types": [ty, ty], "ret_types": ["i1"], "float_args": True}
+
+
+def cmpf_inputs(rng: Any, ty: str, nrandom: int = 3, finite_only: bool = False) -> list[list[int]]:
+    """operand pairs (bit patterns) that separate the 16 predicates: the three IEEE relations lt / eq / gt and
+    unordered each occur - equal operands (same pattern, +0 vs -0, both infinite), adjacent values, NaN on either /
+    both sides - plus random pairs.  Random floats alone practically never compare equal or unordered."""
+    from props import c22_snip as sn
+
+    d = ty == "f64"
+    one, two, inf = (0x3FF0000000000000, 0x4000000000000000, 0x7FF0000000000000) if d else (0x3F800000, 0x40000000, 0x7F800000)
+    sb = 1 << (63 if d else 31)
+    qnan = rv.QNAN64 if d else rv.QNAN32
+    rnd = (lambda: sn.rand_f64(rng) & rv.M64) if d else (lambda: sn.rand_f32(rng) & rv.M32)
+    x = rnd()
+    while rv.is_nan_bits(x, d):
+        x = rnd()
+    out = [[one, two], [two, one], [one, one], [x, x], [0, sb], [sb, 0], [inf, inf], [inf | sb, inf], [one, one + 1], [one + 1, one],
+           [one | sb, one], [qnan, one], [one, qnan], [qnan, qnan], [x, qnan]]
+    for _ in range(nrandom):
+        out.append([rnd(), rnd()])
+    if finite_only:   # fast-math flags (nnan, ninf): a NaN / infinite operand makes the source result poison
+        fin = lambda v: not rv.is_nan_bits(v, d) and (v & ~sb) != inf  # noqa: E731
+        out = [pr for pr in out if fin(pr[0]) and fin(pr[1])]
+    return out
+
+
 def float_inputs(rng: Any, p: dict[str, Any], n: int) -> list[list[int]]:
     from props import c22_snip as sn
 
